@@ -27,9 +27,18 @@ fn emit(line: &Value) {
 }
 
 fn stat_once(path: &str) -> Value {
+	let with_content = std::env::args().any(|a| a == "--content");
 	match std::fs::metadata(path) {
 		Ok(md) => {
 			let data = std::fs::read(path).unwrap_or_default();
+			if with_content && data.len() <= 262_144 {
+				let sha = hash(MessageDigest::sha256(), &data)
+					.map(|d| hex::encode(d))
+					.unwrap_or_default();
+				return json!({"path": path, "exists": true, "is_file": md.is_file(), "len": data.len(),
+					"sha": sha, "mode": md.mode() & 0o7777, "uid": md.uid(), "gid": md.gid(),
+					"content": String::from_utf8_lossy(&data)});
+			}
 			let sha = hash(MessageDigest::sha256(), &data)
 				.map(|d| hex::encode(d))
 				.unwrap_or_default();
